@@ -5,6 +5,7 @@ package c11
 import (
 	"fmt"
 	"math"
+	"sort"
 
 	"pgregory.net/rapid"
 	"verifharness/gen"
@@ -320,6 +321,12 @@ type normalsCase struct {
 	Flip   []int    `json:"flip"`    // indices modulo the face count (set semantics)
 	All    bool     `json:"all"`     // re-orient every face
 	EpsRel float64  `json:"eps_rel"` // eps relative to the smallest clearance scale of the input
+	// TJ > 0: a T-junction is worked into the mesh first.  The (TJ-1)-th axis-parallel edge a-b (counted over the
+	// faces in order, modulo their number) of a face (a,b,c) gets its midpoint m as a vertex on that face's side
+	// only: (a,b,c) becomes (a,m,c) and (m,b,c), and the zero-area face (a,b,m) closes the surface again.  The
+	// mesh stays a closed oriented manifold with one face whose normal is undefined (its cross product is exactly
+	// zero because the edge is axis-parallel).
+	TJ int `json:"tj,omitempty"`
 }
 
 func genNormals(t *rapid.T) normalsCase {
@@ -339,7 +346,45 @@ func genNormals(t *rapid.T) normalsCase {
 		c.All = true
 	}
 	c.EpsRel = gen.LogF(t, 1e-4, 1e-2, "epsrel")
+	if gen.Int(t, 0, 3, "tjunction") == 0 {
+		c.TJ = gen.Int(t, 1, 200, "tj")
+	}
 	return c
+}
+
+// withTJunction returns the mesh with the T-junction described at normalsCase.TJ and the index of the zero-area
+// face, or the mesh unchanged and -1 when it has no axis-parallel edge.
+func withTJunction(base []kit.Tri, tj int) ([]kit.Tri, int) {
+	type cand struct{ f, k int }
+	var cs []cand
+	for f, t := range base {
+		for k := 0; k < 3; k++ {
+			a, b := t[k], t[(k+1)%3]
+			same := 0
+			for ax := 0; ax < 3; ax++ {
+				if a[ax] == b[ax] {
+					same++
+				}
+			}
+			if same == 2 {
+				cs = append(cs, cand{f, k})
+			}
+		}
+	}
+	if len(cs) == 0 || tj <= 0 {
+		return base, -1
+	}
+	pick := cs[(tj-1)%len(cs)]
+	t := base[pick.f]
+	a, b, c := t[pick.k], t[(pick.k+1)%3], t[(pick.k+2)%3]
+	m := a.Mid(b)
+	if m == a || m == b {
+		return base, -1
+	}
+	out := append([]kit.Tri(nil), base...)
+	out[pick.f] = kit.Tri{a, m, c}
+	out = append(out, kit.Tri{m, b, c}, kit.Tri{a, b, m})
+	return out, len(out) - 1
 }
 
 // clearance3 is a length such that every pair of non-adjacent surface sheets of the input,
@@ -391,6 +436,10 @@ func checkNormals(c normalsCase, o *kit.Obs) error {
 		return nil
 	}
 	eps := c.EpsRel * c.Spec.clearance()
+	base, flat := withTJunction(base, c.TJ)
+	if flat >= 0 {
+		o.Label("t-junction(zero-area face)")
+	}
 	set := flipSet(c.Flip, c.All, len(base))
 	in := append([]kit.Tri(nil), base...)
 	for i := range set {
@@ -461,6 +510,41 @@ func checkNormals(c normalsCase, o *kit.Obs) error {
 		if w := kit.Winding3(out, p); math.Abs(w) > 0.01 {
 			return fmt.Errorf("RepairNormals(%g): winding number of the result at %v (outside the even-odd solid) is %.4f, want 0; %d of %d faces had been re-oriented, %d reported as flipped", eps, p, w, len(set), len(base), n)
 		}
+	}
+	if flat >= 0 {
+		// the zero-area face has no orientation to restore: it must still be there (once, either way round);
+		// everything else is compared without it, and it may or may not count as flipped
+		if len(out) != len(base) {
+			return fmt.Errorf("RepairNormals(%g) returned %d faces for a mesh of %d faces (one of them of zero area)", eps, len(out), len(base))
+		}
+		key := func(t kit.Tri) [3]kit.V3 {
+			v := [3]kit.V3{t[0], t[1], t[2]}
+			sort.Slice(v[:], func(i, j int) bool { return kit.V3Less(v[i], v[j]) })
+			return v
+		}
+		var rest []kit.Tri
+		found := 0
+		for _, t := range out {
+			if key(t) == key(base[flat]) {
+				found++
+			} else {
+				rest = append(rest, t)
+			}
+		}
+		if found != 1 {
+			return fmt.Errorf("RepairNormals(%g): the zero-area face %v of the input appears %d times in the result", eps, base[flat], found)
+		}
+		if err := sameFaces(rest, base[:flat]); err != nil {
+			return fmt.Errorf("RepairNormals(%g) on a mesh with a zero-area face did not restore the even-odd orientation of the other faces: %v", eps, err)
+		}
+		k := len(set)
+		if set[flat] {
+			k--
+		}
+		if n != k && n != k+1 {
+			return fmt.Errorf("RepairNormals(%g) reports %d flipped faces, %d faces of non-zero area were re-oriented", eps, n, k)
+		}
+		return nil
 	}
 	if err := sameFaces(out, base); err != nil {
 		return fmt.Errorf("RepairNormals(%g) did not restore the even-odd orientation (%d of %d faces re-oriented, %d reported): %v", eps, len(set), len(base), n, err)
